@@ -55,15 +55,15 @@ PATCHED = os.environ.get("VERIF_C05_PATCHED", "TRUE").upper()   # /repo contains
 # THE CALLER'S INDEX: a negative int8 (int16) column on a row longer than 127 (32767) wraps -- a[0, np.int8(-1)] on a
 # row of 300 returns column 43 --, a negative int8 row on an array of more than 127 rows raises OverflowError.  Affects
 # the forms without a slice: (I,I), (L,L), (L,I), (I,L).  Which cases: RaggedRead!Hazards (bits 1-4).
-NARROW_INDEX_DEFECT_REPAIRED = os.environ.get("C05_NARROW", "0") == "1"
+NARROW_INDEX_DEFECT_REPAIRED = os.environ.get("C05_NARROW", "1") == "1"      # repaired in /repo d3481c4
 # the same arithmetic with a uint64 column index: starts[rows] (int64) + columns (uint64) is a float64 array, the read
 # raises IndexError: a[0, np.uint64(2)], a[[0, 2], np.array([1, 2], dtype=np.uint64)].  RaggedRead!Hazards bit 5.
-UINT64_INDEX_DEFECT_REPAIRED = os.environ.get("C05_UINT64", "0") == "1"
+UINT64_INDEX_DEFECT_REPAIRED = os.environ.get("C05_UINT64", "1") == "1"      # repaired in /repo d3481c4
 # a 0-d integer array where a single integer is meant (rows[np.array(1)] is row 1 for a list of rows and for numpy):
 # a[np.array(1)] is a one-row RaggedArray instead of the row, a[np.array(1), 2] / a[1, np.array(2)] an array of one
 # element instead of the element, a[np.array(0), 1:3] raises TypeError.  As the column of (S,I) and (L,I) a 0-d array
 # behaves as the integer and is exercised unconditionally.
-ZERO_D_INDEX_DEFECT_REPAIRED = os.environ.get("C05_ZEROD", "0") == "1"
+ZERO_D_INDEX_DEFECT_REPAIRED = os.environ.get("C05_ZEROD", "1") == "1"       # repaired in /repo aeb0d66
 
 MC_INVS = ["TypeOK", "Representation", "StepsAgree", "NoNeighbourLeakImpl", "ElementOutsideRaises",
            "ReadEq", "MisshapedOnlyVectorEqualLengths", "DepartAlwaysIsTight"]
